@@ -812,12 +812,12 @@ theorem maxRow_cons (x : K) (xs : List K) : maxRow (x :: xs) = Model.maxOf x xs 
     explicit parameter, nothing assumed) is called on the SAME two arrays in the SAME order; the flag is `False` -/
 theorem all_intersections_src (ic : List (List K) → List (List K) → Except Err (List (List K)))
     (x1 y1 x2 y2 : K) (xs1 ys1 xs2 ys2 : List K) :
-    Src.Py.all_intersections ic [x1 :: xs1, y1 :: ys1] [x2 :: xs2, y2 :: ys2] =
+    Src.Py.algebraic_intersection.all_intersections ic [x1 :: xs1, y1 :: ys1] [x2 :: xs2, y2 :: ys2] =
       if bboxDisjoint [x1 :: xs1, y1 :: ys1] [x2 :: xs2, y2 :: ys2] then .ok ([[], []], false)
       else match ic [x1 :: xs1, y1 :: ys1] [x2 :: xs2, y2 :: ys2] with
         | .error e => .error e
         | .ok r => .ok (r, false) := by
-  unfold Src.Py.all_intersections
+  unfold Src.Py.algebraic_intersection.all_intersections
   rw [SrcPy.bbox_intersect_src]
   simp only [Model.bboxIntersect, Model.bbox, SrcPy.encBox, Rt.bind_ok, bboxDisjoint, List.getD_cons_zero,
     List.getD_cons_succ, minRow_cons, maxRow_cons, Model.boxRelation, Bool.or_eq_true, decide_eq_true_eq]
@@ -841,7 +841,7 @@ theorem all_intersections_model (ext : Externals K) (par : Params K) (w : K)
       match algIntersectCurves ext par w [x1 :: xs1, y1 :: ys1] [x2 :: xs2, y2 :: ys2] with
       | .error e => .error e
       | .ok r => .ok [r.1, r.2]) :
-    Src.Py.all_intersections ic [x1 :: xs1, y1 :: ys1] [x2 :: xs2, y2 :: ys2] =
+    Src.Py.algebraic_intersection.all_intersections ic [x1 :: xs1, y1 :: ys1] [x2 :: xs2, y2 :: ys2] =
       match algAllIntersections ext par w [x1 :: xs1, y1 :: ys1] [x2 :: xs2, y2 :: ys2] with
       | .error e => .error e
       | .ok r => .ok ([r.1.1, r.1.2], r.2) := by
@@ -898,7 +898,7 @@ theorem strip_loop (thr : K) (test : List K → Except Err Bool) (step : List K 
     (htest : ∀ l, test l = Rt.bind (Src.Py.Rt.idxI l (-1 : Int)) fun t1 => .ok (decide (Model.absK t1 < thr)))
     (hstep : ∀ l, step l = .ok (Src.Py.Rt.slice l none (some (-1 : Int)))) :
     ∀ (n : Nat) (l : List K) (fuel : Nat), l.length = n → n + 1 ≤ fuel →
-      Src.Py.Rt.whileM fuel l test step = stripLeadingZeros thr l := by
+      Src.Py.Rt.whileA fuel l test step = stripLeadingZeros thr l := by
   intro n
   induction n with
   | zero =>
@@ -906,7 +906,7 @@ theorem strip_loop (thr : K) (test : List K → Except Err Bool) (step : List K 
     obtain ⟨f, rfl⟩ : ∃ f, fuel = f + 1 := ⟨fuel - 1, by omega⟩
     have : l = [] := List.length_eq_zero_iff.mp hl
     subst this
-    rw [Src.Py.Rt.whileM, htest]
+    rw [Src.Py.Rt.whileA, htest]
     rfl
   | succ n ih =>
     intro l fuel hl hf
@@ -916,7 +916,7 @@ theorem strip_loop (thr : K) (test : List K → Except Err Bool) (step : List K 
     · rw [List.concat_eq_append] at hcat
       subst hcat
       have hinit : init.length = n := by simpa using hl
-      rw [Src.Py.Rt.whileM, htest, idxI_last, Rt.bind_ok, Rt.bind_ok]
+      rw [Src.Py.Rt.whileA, htest, idxI_last, Rt.bind_ok, Rt.bind_ok]
       unfold stripLeadingZeros
       rw [List.reverse_append, List.reverse_singleton, List.singleton_append, stripRev]
       by_cases hx : Model.absK x < thr
